@@ -79,15 +79,33 @@ def _builder_kwargs(c):
     return kind, kw
 
 
+_CODE = []
+
+
+def share_code(contents):
+    """every origination is forged from the same code list object, edited in place for each script (a code template):
+    the bytes must follow the content of the list, not its identity"""
+    for c in contents:
+        if isinstance(c.get('script'), dict) and isinstance(c['script'].get('code'), list):
+            _CODE[:] = c['script']['code']
+            c['script'] = dict(c['script'], code=_CODE)
+    return contents
+
+
 def impl_forge(g, variant):
     """Forge the model group through one of pytezos' public entry points; returns bytes or ('raised', class, text)."""
     from pytezos.operation.forge import forge_operation_group
     from pytezos.operation.group import OperationGroup
     try:
         if variant in ('json', 'json-explicit'):
-            return forge_operation_group(R.group_json(g, explicit_default=variant == 'json-explicit'))
+            j = R.group_json(g, explicit_default=variant == 'json-explicit')
+            if len(j['contents']) == 1:
+                share_code(j['contents'])
+            return forge_operation_group(j)
         if variant == 'group':
             j = R.group_json(g)
+            if len(j['contents']) == 1:
+                share_code(j['contents'])
             return bytes.fromhex(OperationGroup(context=_execution_context(), contents=j['contents'], branch=j['branch']).forge())
         if variant == 'builder':
             og = OperationGroup(context=_execution_context(), branch=R.b58check('B', g[0]))
